@@ -3,6 +3,8 @@ From Coq Require Import List ZArith.
 From MV Require Import JobModel.
 Import ListNotations.
 Local Open Scope Z_scope.
+(* #define LOG_LIMIT_SECS *)
+Definition src_log_limit : Z := 60.
 Definition src_job : prog := mkprog
   (seq [SIf (CInitFails) (seq [SFatal FInit]) (seq []); SLog PInfo TCreated])
   (CNot (CTerm))
